@@ -219,10 +219,10 @@ func runCase(c Case) (st stats, err error) {
 				}
 				ctlMu.Lock()
 				if expired {
-					// a control frame whose deadline has passed is not sent: the call reports it (or the close already sent)
-					if e == nil {
-						ctlErrs = append(ctlErrs, ctlErr{si, fi, fmt.Errorf("WriteControl with a deadline in the past returned nil"), false})
-						expiredOK = false
+					// a control frame whose deadline has already passed: the call may give up at once (this library does)
+					// or still send the frame - the statement fixes neither; what counts is that the wire stays whole
+					if e == nil && op != websocket.CloseMessage {
+						sentCtl = append(sentCtl, string(payload))
 					}
 					nExpired++
 				} else {
@@ -432,10 +432,7 @@ func runCase(c Case) (st stats, err error) {
 		}
 		legit[p]--
 	}
-	if !expiredOK {
-		return st, fmt.Errorf("WriteControl with a deadline in the past returned nil")
-	}
-	_ = nExpired
+	_, _ = expiredOK, nExpired
 	if closeSeen >= 0 && off != ends[closeSeen] {
 		return st, fmt.Errorf("%d bytes reached the wire after the Close frame", off-ends[closeSeen])
 	}
